@@ -225,7 +225,8 @@ class Prop(common.PropertyCheck):
         d2, change = self.corrupt(spec, case['field'], case['delta'])
         if d2 is None:
             return {'skip': True}
-        r = fcsgen.load_bytes(d2, want_fcsdata=False)
+        # (the intact file of the same length sat at the same path, with the same time stamps, and was loaded just before)
+        r = fcsgen.load_bytes(d2, want_fcsdata=False, prelude=data if len(d2) == len(data) else None)
         r['file'] = list(d2)
         r['change'] = list(change)
         r['written'] = {'text_pairs': self._l2['text_pairs'], 'segs': self._l2['segs']}
